@@ -169,17 +169,30 @@ def run_case(case):
     summary = {"access": access, "top_kind": case["top_kind"], "leaves": [(list(p), l[1], l[2]) for p, l in leaves][:24],
                "stim": case["stim_seed"]}
     reinst = None
+    order_dependent = inherits = None
     try:
         if case["top_kind"] == "annot":
             x_ = rng.random()
             if x_ < 0.25:
                 # a base class with other annotations is defined and instantiated FIRST; the subclass declares its own
-                base_fields = {"zz_base": csr.Field(ProbeAction, unsigned(3), "rw" if access == "rw" else access),
-                               "yy_base": [csr.Field(ProbeAction, unsigned(1), "rw" if access == "rw" else access)]}
-                base = type("AnnBase", (csr.Register,), {"__annotations__": base_fields}, access=access)
+                def hierarchy():
+                    bf = {"zz_base": csr.Field(ProbeAction, unsigned(3), "rw" if access == "rw" else access),
+                          "yy_base": [csr.Field(ProbeAction, unsigned(1), "rw" if access == "rw" else access)]}
+                    b_ = type("AnnBase", (csr.Register,), {"__annotations__": bf}, access=access)
+                    return b_, type("AnnDerived", (b_,), {"__annotations__": dict(to_fields(tree))})
+
+                def shape_of(r_):
+                    return [(type(a).__name__, a.port.access.value, Value.cast(a.port.r_data).shape().width)
+                            for a in live_leaves(r_.field)]
+
+                _b0, d0 = hierarchy()
+                control = shape_of(d0())            # subclass instantiated without its base ever being instantiated
+                base, cls = hierarchy()
                 base()
                 cls = type("AnnDerived", (base,), {"__annotations__": dict(fields)})
                 reg = cls()
+                order_dependent = shape_of(reg) != control
+                inherits = len(control) != len(leaves)
             elif x_ < 0.5:
                 cls = type("AnnReg", (csr.Register,), {"__annotations__": dict(fields)}, access=access)
                 reg = cls()
@@ -202,6 +215,9 @@ def run_case(case):
         reg, raised = None, e
 
     def construction():
+        if order_dependent is not None:
+            mon.ok("subclass_layout_independent_of_instantiation_order", not order_dependent,
+                   "an annotated subclass has a different field layout when its base class was instantiated first")
         if incompatible:
             mon.ok("rejected_incompatible", isinstance(raised, (ValueError, TypeError)),
                    f"fields {incompatible} cannot be served by a register of access '{access}' but construction "
@@ -219,6 +235,11 @@ def run_case(case):
     mon.run(construction)
     if reg is None or mon.violations:
         return mon.result(nontrivial=bool(incompatible), summary=summary)
+    if inherits:
+        # the subclass does not consist of exactly its own annotations (inheritance semantics this harness does not
+        # model): only the order-independence above is judged
+        mon.count("annotation_inheritance_semantics_not_modelled")
+        return mon.result(summary=summary)
 
     el = reg.element
     live = live_leaves(reg.field)
